@@ -83,6 +83,8 @@ func init() {
 	sc := strconv.Itoa(int(dep.Scope))
 	xt := strconv.Itoa(int(dep.XTest))
 	ka := strconv.Itoa(int(dep.KnownAs))
+	mc := strconv.Itoa(int(dep.MavenClassifier))
+	mt := strconv.Itoa(int(dep.MavenArtifactType))
 	typPool = []dep.Type{
 		mk(nil),
 		mk([]dep.AttrKey{dep.Dev}),
@@ -98,6 +100,13 @@ func init() {
 		mk(nil, ka, "y"),
 		mk(nil, sc, "peer", ka, "x"),
 		mk(nil, sc, "peer", ka, "y"),
+		// same value on the highest key, different values on a lower one
+		mk(nil, sc, "bundle", ka, "x"),
+		mk(nil, sc, "", ka, "x"),
+		mk(nil, mc, "sources", mt, "jar"),
+		mk(nil, mc, "tests", mt, "jar"),
+		mk(nil, mc, "tests", mt, "pom"),
+		mk([]dep.AttrKey{dep.Opt}, mc, "tests", mt, "jar"),
 	}
 	for i := 1; i < len(typPool); i++ {
 		for j := i; j > 0 && typPool[j].Compare(typPool[j-1]) < 0; j-- {
